@@ -39,6 +39,22 @@ static void three(std::string &o,unsigned char const *s,size_t n)
 	p=b; c=btraits::decode(p,e); fmt(o,c,p-b);
 }
 
+typedef booster::locale::utf::utf_traits<char16_t> b16traits;
+// code units: 4 hex digits each; "-" = empty
+static std::vector<char16_t> units(std::string const &h)
+{
+	std::vector<char16_t> r;
+	if(h=="-") return r;
+	for(size_t i=0;i+4<=h.size();i+=4) r.push_back(char16_t(strtoul(h.substr(i,4).c_str(),0,16)));
+	return r;
+}
+static std::string hex16(std::u16string const &s)
+{
+	if(s.empty()) return "-";
+	std::string r; char b[8];
+	for(size_t i=0;i<s.size();i++) { snprintf(b,sizeof(b),"%04x",unsigned(s[i])); r+=b; }
+	return r;
+}
 static std::string bits(std::vector<bool> const &v)
 {
 	static const char *d="0123456789abcdef";
@@ -160,6 +176,34 @@ int main()
 				std::string r2=booster::locale::conv::utf_to_utf<char,char>(s.data(),s.data()+s.size(),booster::locale::conv::stop);
 				out+=hex(r2);
 			}
+			catch(booster::locale::conv::conversion_error const &) { out+="throw"; }
+		}
+		else if(v.size()==2 && v[0]=="d16") {
+			// utf_traits<char16_t>::decode on a sequence of code units (4 hex digits each), exactly sized heap block
+			std::vector<char16_t> u=units(v[1]);
+			std::vector<char16_t> blk(u);
+			char16_t const *b=blk.empty() ? (char16_t const *)u"" : &blk[0],*e=b+blk.size(),*p=b;
+			uint32_t c=b16traits::decode(p,e);
+			out="d16 "; fmt(out,c,p-b);
+		}
+		else if(v.size()==2 && v[0]=="e16") {
+			uint32_t cp=strtoul(v[1].c_str(),0,16);
+			std::u16string r; b16traits::encode(cp,std::back_inserter(r));
+			snprintf(buf,sizeof(buf)," %d",b16traits::width(cp)); out="e16 "+hex16(r)+buf;
+		}
+		else if(v.size()==2 && v[0]=="c816") {
+			std::string s=unhex(v[1]);
+			std::u16string r1=booster::locale::conv::utf_to_utf<char16_t,char>(s.data(),s.data()+s.size(),booster::locale::conv::skip);
+			out="c816 "+hex16(r1)+" ";
+			try { out+=hex16(booster::locale::conv::utf_to_utf<char16_t,char>(s.data(),s.data()+s.size(),booster::locale::conv::stop)); }
+			catch(booster::locale::conv::conversion_error const &) { out+="throw"; }
+		}
+		else if(v.size()==2 && v[0]=="c168") {
+			std::vector<char16_t> u=units(v[1]);
+			char16_t const *b=u.empty() ? (char16_t const *)u"" : &u[0],*e=b+u.size();
+			std::string r1=booster::locale::conv::utf_to_utf<char,char16_t>(b,e,booster::locale::conv::skip);
+			out="c168 "+hex(r1)+" ";
+			try { out+=hex(booster::locale::conv::utf_to_utf<char,char16_t>(b,e,booster::locale::conv::stop)); }
 			catch(booster::locale::conv::conversion_error const &) { out+="throw"; }
 		}
 		else out="BAD-CASE";
